@@ -77,3 +77,62 @@ Theorem C06_archival_status :
     find_cond conds CAvailable = None /\ (cond_true conds CArchived = true -> ctrlof = []).
 Proof. exact C06_archival_status. Qed.
 Print Assumptions C06_archival_status.
+
+(** The controller-level monitor m06 (coq/corr/SetMonitors.v: archived short-circuit; Succeeded never withdrawn; no
+    Available while deleting / archiving; Available=True, Succeeded=True and the clearing of InTransition only on what
+    the pass observed). REFUTED as an acceptance claim over all cases: the monitor demands every listed key LITERALLY
+    in status.controllerOf when InTransition is cleared, whereas the model (isObjectSetInTransition 337-352) lets a
+    namespace-less reference reported by an ObjectSetPhase stand for a listed object of the same group, kind and name;
+    on [x_nsless_case] (a delegated phase whose phase object reports its object without a namespace) the monitor raises
+    a false alarm on the model itself. *)
+From PKOCorr Require Import SetCorr SetMonitors SetMonSound SetMonSound2.
+Theorem C06_set_monitor_refuted :
+  exists c : scase, nsless_refs_literal c = false /\ m06 (set_obs_s c (SetCorr.model_run c)) = false.
+Proof. exact m06_refuted. Qed.
+Print Assumptions C06_set_monitor_refuted.
+
+(** Partial (excluded: active ObjectSets with pairwise distinct local keys and a stored InTransition condition for which
+    the stored phase object of one of the delegated phases reports, in status.controllerOf, a namespace-less key that
+    shares group/kind and name with a DIFFERENT listed key): otherwise the monitor accepts every pass of the model. No
+    uniqueness of the stored ObjectSets is assumed. *)
+Theorem C06_set_monitor_sound_partial :
+  forall c : scase, nsless_refs_literal c = true -> m06 (set_obs_s c (SetCorr.model_run c)) = true.
+Proof. exact m06_sound_partial. Qed.
+Print Assumptions C06_set_monitor_sound_partial.
+
+Example C06_set_monitor_hypothesis_satisfiable :
+  nsless_refs_literal x_nsfull_case = true /\
+  map (fun s => let '(cs, co, _, _) := s in (find_cond cs CInTransition, co)) (statuses (set_obs_s x_nsfull_case (SetCorr.model_run x_nsfull_case)))
+  = [(None, [x_key 1 1])].
+Proof. exact m06_hypothesis_satisfiable. Qed.
+Print Assumptions C06_set_monitor_hypothesis_satisfiable.
+
+(** The delegated part of the C06 check (m06d = C15Corr.m_relay && C15Corr.m_own: Available=True newly reported only
+    from phase objects obtained in this pass that are Available for their own generation, controlled by the ObjectSet
+    and carrying the phase's objects). REFUTED as an acceptance claim over all cases: the model - like
+    remotePhase.Reconcile - does not compare the spec of an EXISTING phase object with the phase; on
+    [x_other_objects_case] (a phase object controlled by the ObjectSet that lists another object and reports Available)
+    it relays Available=True and the ownership clause raises an alarm on the model itself. *)
+Theorem C06_set_monitor_delegated_refuted :
+  exists c : scase, phase_objects_carried c = false /\ m06d (set_obs_s c (SetCorr.model_run c)) = false.
+Proof. exact m06d_refuted. Qed.
+Print Assumptions C06_set_monitor_delegated_refuted.
+
+(** Partial (excluded: a stored phase object of a delegated phase of an active ObjectSet that is controlled by the
+    ObjectSet but whose spec.objects differ from the phase): otherwise the monitor accepts every pass of the model; its
+    relay clause (m_relay) does so without any hypothesis. *)
+Theorem C06_set_monitor_delegated_sound_partial :
+  forall c : scase, phase_objects_carried c = true -> m06d (set_obs_s c (SetCorr.model_run c)) = true.
+Proof. exact m06d_sound_partial. Qed.
+Print Assumptions C06_set_monitor_delegated_sound_partial.
+
+Theorem C06_set_monitor_relay_sound :
+  forall c : scase, C15Corr.m_relay (as_dobs (set_obs_s c (SetCorr.model_run c))) = true.
+Proof. exact m_relay_sound. Qed.
+Print Assumptions C06_set_monitor_relay_sound.
+
+Example C06_set_monitor_delegated_hypothesis_satisfiable :
+  phase_objects_carried x_carried_case = true /\
+  map (fun s => let '(cs, _, _, _) := s in cond_true cs CAvailable) (statuses (set_obs_s x_carried_case (SetCorr.model_run x_carried_case))) = [true].
+Proof. exact m06d_hypothesis_satisfiable. Qed.
+Print Assumptions C06_set_monitor_delegated_hypothesis_satisfiable.
